@@ -80,6 +80,7 @@ def plan(tier, seed):
         cfgs += [sd.random_config(rng, 4, 7) for _ in range(260)]
         cfgs += [sd.debug_selection_config(rng) for _ in range(60)]
         cfgs += [sd.seq_defer_config(rng) for _ in range(40)]
+        cfgs += [sd.reconf_config(rng) for _ in range(40)]
         opts = {"max_runs": 120}
     else:
         cfgs = sd.small_configs(2, (1, 2), rng, sample=None, prios=True)
@@ -88,6 +89,7 @@ def plan(tier, seed):
         cfgs += [sd.random_config(rng, 4, 8) for _ in range(4000)]
         cfgs += [sd.debug_selection_config(rng) for _ in range(600)]
         cfgs += [sd.seq_defer_config(rng) for _ in range(500)]
+        cfgs += [sd.reconf_config(rng) for _ in range(500)]
         opts = {"max_runs": 400}
     return cfgs, opts
 
